@@ -40,6 +40,10 @@ type c19Case struct {
 	// source for the written bytes: "list" (order A exactly) or "lazy"
 	// (a SimpleColumnStore over a non-deterministic write of A is re-saved)
 	Source string `json:"source"`
+	// store ReadInto fills for real_set: "" / "simple" = SimpleInMemoryStore (keyed by
+	// Atom.Hash, finding F8), "multiarray" = MultiIndexedArrayInMemoryStore (compares atoms;
+	// used by the stream with hash-equal distinct facts)
+	Target string `json:"target"`
 }
 
 // ---------------------------------------------------------------- stores
@@ -363,6 +367,16 @@ func runC19(in json.RawMessage) (any, error) {
 			out.DetEqual[name] = err == nil && bytes.Equal(got, plain)
 		}
 		eq("list_b", b)
+		// order A reversed: predicates and the facts of every predicate
+		rev := &listStore{facts: map[ast.PredicateSym][]ast.Atom{}}
+		for i := len(a.preds) - 1; i >= 0; i-- {
+			p := a.preds[i]
+			rev.preds = append(rev.preds, p)
+			for j := len(a.facts[p]) - 1; j >= 0; j-- {
+				rev.facts[p] = append(rev.facts[p], a.facts[p][j])
+			}
+		}
+		eq("list_rev", rev)
 		for _, o := range []struct {
 			n string
 			l *listStore
@@ -400,12 +414,18 @@ func runC19(in json.RawMessage) (any, error) {
 		if err != nil {
 			out.RealErr = err.Error()
 		} else {
-			n := factstore.NewSimpleInMemoryStore()
-			if err := sc.ReadInto(r, &n); err != nil {
+			var n factstore.FactStore
+			if c.Target == "multiarray" {
+				n = factstore.NewMultiIndexedArrayInMemoryStore()
+			} else {
+				s := factstore.NewSimpleInMemoryStore()
+				n = &s
+			}
+			if err := sc.ReadInto(r, n); err != nil {
 				out.RealErr = err.Error()
 			}
 			done()
-			out.RealSet = allFacts(consts, &n)
+			out.RealSet = allFacts(consts, n)
 		}
 	}
 	// lazy store
